@@ -26,6 +26,13 @@ impl ThreadPool {
         }
     }
 
+    /// Verification hook: create a "pool" which runs operations directly on
+    /// the calling thread, so a controlled scheduler sees every step of a run.
+    #[cfg(rten_verif)]
+    pub fn verif_inline() -> ThreadPool {
+        ThreadPool { pool: None }
+    }
+
     /// Create a thread pool with a given number of threads.
     pub fn with_num_threads(num_threads: usize) -> ThreadPool {
         let pool = rayon::ThreadPoolBuilder::new()
